@@ -9,7 +9,7 @@ Progs(u) == CASE Family = "pairs" -> Pairs(0)
            [] Family = "maplits" -> MapLits(D)
            [] Family = "closures" -> Closures(D)
            [] Family = "blockclosures" -> BlockClosures(0) \cup MultiAssigns(0)
-           [] Family = "updates" -> Updates(0) \cup StrProgs(0) \cup IterMuts(0)
+           [] Family = "updates" -> Updates(0) \cup StrProgs(0) \cup IterMuts(0) \cup DeferProgs(0)
            [] Family = "itermuts" -> IterMuts(0) \cup StrProgs(0)
 VARIABLE prog
 Init == prog \in Progs(0)
